@@ -1,6 +1,6 @@
 From Coq Require Import List String Bool Arith ZArith.
 From YT Require Export Base.Str Base.KV Model.Doc Model.Dom Model.Pointer Model.Path Model.Builder Model.Codec
-  Model.Merge Model.Equals Model.Patch Model.Base64 Model.Analytics Model.K8s Model.Pipeline Model.PipeOps Check.Common.
+  Model.Merge Model.Equals Model.Patch Model.Base64 Model.Analytics Model.K8s Model.Pipeline Model.PipeOps Model.YamlNode Check.Common.
 Import ListNotations.
 Local Open Scope list_scope.
 
@@ -25,6 +25,8 @@ Inductive case :=
 | CLenient (s : string) (obs : string)
 (* templateFile: [t] the text of the template file (None: no such file); obs: what the output file holds (None: error),
    and the data document afterwards *)
+(* dom.YamlNodeDecoder on a parsed tree (anchors numbered); obs: the DOM node it made *)
+| CYamlNode (n : ynode) (obs : node)
 | CTemplateFile (t : option tmpl) (file output : string) (path : option string) (data : node)
                 (obs : option string) (after : node).
 
@@ -45,6 +47,10 @@ Definition check (c : case) : bool :=
       node_eqb (Con (env_op (prefixb incl) (fun k => match excl with Some e => prefixb e k | None => false end)
                             path env (data_of data))) obs
   | CLenient s obs => if possibly_template s then true else String.eqb s obs
+  | CYamlNode n obs =>
+      let env := anchors n in
+      let B := fold_right Nat.max 0 (map (fun e => ysize (snd e)) env) in
+      node_eqb (decode (S (ysize n + List.length env * S B)) env [] n) obs
   | CTemplateFile t file output path data obs after =>
       node_eqb data after &&
       match template_file_op t file output path (data_of data), obs with
